@@ -109,6 +109,27 @@ def gen(rng, tier):
         out.append(Case("st.pmtlags [ [ 33 15 ] [ 34 129 ] ] %d" % q, kind="pmt-odd-pid",
                         theorem="C20_pmt_lags_by_pid_negative" if q < 0 else "C20_pmt_lags_by_pid_absent"))
     out.append(Case("st.pmtlags [ ] 33", kind="pmt-empty", theorem="C20_pmt_lags_by_pid", nontrivial=False))
+    # ---- 2b. the PMT-level query on a real PMT object across a stream removal: query, RemoveElementaryStreams, query
+    # again (twice) - "which is also what the PMT-level query by PID reports" must hold of the object's CURRENT stream
+    # list (C20_pmt_lags_by_pid over the stream list that C14_remove_streams leaves)
+    import gen.pmtlib as PL
+    LAGS = [0x03, 0x04, 0x0F, 0x11, 0x81, 0x87, 0x88]
+    carriers = []
+    for _ in range(120 if not thorough else 1500):
+        c = PL.rand_carrier(rng, allow_pre=False, small=True, nstreams=rng.choice([1, 2, 3, 4, 6]))
+        c["pf"] = 0; c["pre"] = []
+        c["sec"]["streams"] = [(rng.choice(LAGS) if rng.random() < 0.6 else st, pid, ds) for st, pid, ds in c["sec"]["streams"]]
+        c["stuffing"] = 0
+        carriers.append(c)
+    payloads = vlib.run_model([PL.payload_line(c) for c in carriers])
+    for c, r in zip(carriers, payloads):
+        have = [pid for _, pid, _ in c["sec"]["streams"]]
+        if not have:
+            continue
+        for _ in range(2):
+            rm = [rng.choice(have + [9]) for _ in range(rng.randrange(1, 4))]
+            out.append(Case("pmt.lagshist %s %s %s" % (r, vlib.fmt_val(rm), vlib.fmt_val(have + [9, 8190])),
+                            kind="pmt-query-remove-query", theorem="C20_pmt_lags_by_pid + C14_remove_streams"))
     # ---- 3. all tags x length classes x boundary patterns
     lens = LENS + ([16, 255] if thorough else [])
     for tag in range(256):
